@@ -127,6 +127,27 @@ def run(ctx):
         ok = rep.get("ok") and (rep.get("phase") == "done" if kind.startswith("sb") else (rep.get("finished") and rep.get("outerDone")))
         if not ok or rep.get("out") != out:
             corr_bad.append({"stage": kind, "input": data, "b": b, "trace": log[:60], "model": rep})
+    # ---- the generators must treat every element as data: None, 0, False, "", () are legal elements (a process_record may return them)
+    import asyncio
+    from sedpack.io.itertools import shuffle_buffer, round_robin, shuffle_buffer_async, round_robin_async
+    falsy = [None, 0, False, "", (), 0.0, [], 1, 2, None, 3, 0]
+    nfalsy = 0
+    def key(x): return repr(x) + type(x).__name__
+    async def acollect(agen):
+        return [x async for x in agen]
+    async def asrc(xs):
+        for x in xs: yield x
+    for b in (1, 2, 3, 5, len(falsy), len(falsy) + 2):
+        outs = {"shuffle_buffer": list(shuffle_buffer(iter(list(falsy)), buffer_size=b)),
+                "shuffle_buffer_async": asyncio.run(acollect(shuffle_buffer_async(asrc(list(falsy)), buffer_size=b))),
+                "round_robin": list(round_robin([iter(falsy[:5]), iter(falsy[5:])], buffer_size=b)),
+                "round_robin_async": asyncio.run(acollect(round_robin_async(asrc([asrc(falsy[:5]), asrc(falsy[5:])]), buffer_size=b)))}
+        for nm, out in outs.items():
+            nfalsy += 1
+            if sorted(map(key, out)) != sorted(map(key, falsy)):
+                ctx.report({"kind": "stage-multiset", "stage": nm, "falsy": True},
+                           f"{nm}(buffer_size={b}) over {falsy!r} yielded {out!r}: elements such as None / 0 / '' are data, not end markers",
+                           {"stage": nm, "b": b, "input": [repr(x) for x in falsy], "output": [repr(x) for x in out]})
     # ---- end to end (child process: threads, TF, rebuilt Rust extension)
     cases = e2e_cases(ctx)
     recs = []
